@@ -131,7 +131,19 @@ def body_functional(c, ctx):
         else:
             wantel = np.array([float(x) for x in per])
             ctx.close('elemental_cells', el, wantel, 2e-11, np.abs(wantel) + scale / len(cells), **sig)
-        measure_cells = cells
+        # further subsets of the same size on the SAME mesh object (a library user integrates over one
+        # subdomain after the other): results must not depend on what was integrated before
+        if where in ('cellsub', 'subdomain') and len(cells) < m.nelements:
+            for shift in (1, 2):
+                cells2 = ((cells.astype(np.int64) + shift) % m.nelements).astype(np.int32)
+                b2 = CellBasis(m, getattr(skfem, P1[kind])(), intorder=order, elements=cells2)
+                per2 = [exact_cell_integral(kind, m.p[:, m.t[:nl, k]], f) for k in cells2]
+                el2 = np.asarray(Functional(integrand).elemental(b2))
+                w2 = np.array([float(x) for x in per2])
+                if el2.shape != w2.shape or not np.all(np.abs(el2 - w2) <= 2e-11 * (np.abs(w2) + scale / len(cells))):
+                    ctx.fail('sequence_of_subsets', f'subset {cells2.tolist()} integrated after {cells.tolist()} on the same mesh '
+                             f'object: {el2} vs {w2}', **sig)
+                    break
     else:
         order = needed_order(kind, deg, facet=True) + c['extra']
         bf = m.boundary_facets()
